@@ -21,7 +21,7 @@ None == "none"
 Inf  == 1000000000         \* energy of accounts that are not tracked (rich accounts)
 
 VARIABLES cfg,      \* [limit, lpa, lifetime, identity]  pool options + which promote rule (never changes in a run)
-          txs,      \* hash -> [id, org, dlg, cost, costs, cap, prio, prio0, ref, exp, dep, typed]     what is known about signed txs
+          txs,      \* hash -> [id, org, dlg, cost, costs, cap, prios, priosnw, prio, prio0, ref, exp, dep, typed]     what is known about signed txs
                     \*         (cap: the most it pays per gas; prio: priority fee from GALACTICA on, prio0: before)
           objs,     \* object id -> [h, src, t, flag, priced, cost, pay, prio]
           byHash,   \* hash -> object id          (mapByHash: THE pool)
@@ -29,9 +29,9 @@ VARIABLES cfg,      \* [limit, lpa, lifetime, identity]  pool options + which pr
           quota,    \* account -> count           (entries are deleted when they reach 0)
           cost,     \* account -> pending cost    (entries are deleted when they reach 0)
           pub,      \* published executables: sequence of [h, prio]
-          head,     \* [num, incl, rev, energy, basefee, bf, gala, synced]  facts about the best block (basefee: of the NEXT block)
+          head,     \* [id, num, incl, rev, energy, basefee, bf, refresh, gala, synced]  facts about the best block (basefee: of the NEXT block)
           blocked,  \* fetched blocklist
-          tick,     \* housekeeping locals: [seen (head num at the last tick), added (addedAfterWash > 0)]
+          tick,     \* housekeeping locals: [seen (id of the head at the last tick), added (addedAfterWash > 0)]
           w,        \* the in-flight wash
           lastDrop  \* how the last object left the pool
 
@@ -60,7 +60,14 @@ Payer(tx)   == IF tx.dlg # None THEN tx.dlg ELSE tx.org
 \* where it differs from tx.cost.  The pool computes it ONCE, when the object becomes executable, and accounts that value
 \* until the object leaves - whatever the base fee does meanwhile.
 CostAt(tx, hd) == IF hd.bf \in DOMAIN tx.costs THEN tx.costs[hd.bf] ELSE tx.cost
-PrioOf(tx, hd) == IF hd.gala THEN tx.prio ELSE tx.prio0     \* priority fee as Evaluate computes it against head hd
+\* priority fee per gas as the pool computes it against head hd (for block hd.num + 1).  It depends on the base fee of that
+\* block and, for legacy txs, on the proved work, which stops counting once the block ref is more than MaxTxWorkDelay (30)
+\* blocks back.  prios / priosnw (with / without work) list it per base fee (key hd.bf, "0" before GALACTICA); prio / prio0 are
+\* the values for the initial base fee / before the fork, used where no table is given.
+WorkCounts(tx, hd) == hd.num + 1 - tx.ref <= 30
+PrioOf(tx, hd) ==
+  LET m == IF WorkCounts(tx, hd) THEN tx.prios ELSE tx.priosnw IN
+  IF hd.bf \in DOMAIN m THEN m[hd.bf] ELSE IF hd.gala THEN tx.prio ELSE tx.prio0
 Size        == Cardinality(DOMAIN byHash)
 Pooled      == Image(byHash)
 Energy(hd, a) == At(hd.energy, a, Inf)
@@ -184,21 +191,21 @@ PromoteLocked(o) ==
 WIdle == [pc |-> "idle"]
 NoDrop == [by |-> None]
 
-WashTrigger == head.synced /\ (head.num # tick.seen \/ Size > Limit \/ tick.added)
+WashTrigger == head.synced /\ (head.id # tick.seen \/ Size > Limit \/ tick.added)
 
 \* a tick that does not wash (not synced, or nothing to do); the head change is consumed all the same
 TickIdle ==
-  /\ w.pc = "idle" /\ ~WashTrigger /\ tick.seen # head.num
-  /\ tick' = [tick EXCEPT !.seen = head.num]
+  /\ w.pc = "idle" /\ ~WashTrigger /\ tick.seen # head.id
+  /\ tick' = [tick EXCEPT !.seen = head.id]
   /\ UNCHANGED <<cfg, txs, objs, byHash, byID, quota, cost, pub, head, blocked, w, lastDrop>>
 
 \* tick + ToTxObjects (read lock): order = evaluation order (Go map order: any permutation)
 WashStart(order, force) ==
   /\ w.pc = "idle" /\ (force \/ WashTrigger)
   /\ SeqSet(order) = Pooled /\ Len(order) = Size
-  /\ w' = [pc |-> "eval", hd |-> head, snap |-> order, i |-> 1, ex |-> <<>>, lex |-> <<>>, nx |-> <<>>,
+  /\ w' = [pc |-> "eval", hd |-> head, chg |-> head.id # tick.seen, forced |-> force, snap |-> order, i |-> 1, ex |-> <<>>, lex |-> <<>>, nx |-> <<>>,
            rm |-> <<>>, k |-> 1, j |-> 1, out |-> <<>>, chk |-> FALSE, fail |-> FALSE]
-  /\ tick' = [seen |-> head.num, added |-> FALSE]
+  /\ tick' = [seen |-> head.id, added |-> FALSE]
   /\ UNCHANGED <<cfg, txs, objs, byHash, byID, quota, cost, pub, head, blocked, lastDrop>>
 
 RmEntry(o, why, a, b) == [o |-> o, why |-> why, a |-> a, b |-> b]
@@ -212,6 +219,13 @@ EvalOf(o, outlived) ==
 
 \* lock-free evaluation of the next object; publishes the pricing of an object that was not executable.
 \* pr: the object's priority after the evaluation (a fact of the implementation when it is refreshed).
+\* the priority an object has after wash evaluated it: computed afresh when the pricing is published now, and refreshed
+\* for an already priced object when the head changed AND that head's own base fee differs from its parent's (hd.refresh);
+\* otherwise it keeps what it had
+EvalPrio(o) ==
+  LET ob == objs[o] tx == txs[ob.h] IN
+  IF (~ob.flag /\ EvalOf(o, FALSE).r = "exec") \/ (ob.priced /\ w.chg /\ w.hd.refresh) THEN PrioOf(tx, w.hd) ELSE ob.prio
+
 WashEval(outlived, pr) ==
   /\ w.pc = "eval" /\ w.i <= Len(w.snap)
   /\ (Lifetime = "never" => ~outlived) /\ (Lifetime = "always" => outlived)
@@ -223,6 +237,7 @@ WashEval(outlived, pr) ==
      IN /\ objs' = IF e.r = "exec"
                    THEN IF ob.flag THEN [objs EXCEPT ![o].prio = pr]
                         ELSE [objs EXCEPT ![o].priced = TRUE, ![o].cost = CostAt(tx, w.hd), ![o].pay = Payer(tx), ![o].prio = pr]
+                   ELSE IF e.r = "nonexec" /\ ob.priced THEN [objs EXCEPT ![o].prio = pr]     \* refreshed all the same
                    ELSE objs
         /\ w' = [w EXCEPT !.i = @ + 1,
                           !.rm  = IF e.r = "drop" THEN Append(@, RmEntry(o, e.why, 0, 0)) ELSE @,
@@ -255,16 +270,30 @@ Displaced(sx, nx) ==
   ELSE IF nn > nl THEN SubSeq(nx, nl + 1, nn)
   ELSE <<>>
 
-\* the limits (lock-free): over-limit objects go to the removal list, locals are appended, list is sorted
-WashLimit ==
+\* the limits (lock-free): over-limit objects go to the removal list, locals are appended, list is sorted.
+\* sortTxObjsByPriorityGasPriceDesc is not a strict order for objects with equal (priority, time added): the position of
+\* such ties - and, when a tie straddles the limit, which of them is displaced - is left open.  ex2 / rmo2 are the lists the
+\* implementation produced; they must equal the canonical ones up to ties.
+SortKey(o) == <<objs[o].prio, objs[o].t>>
+SameKeys(a, b) == Len(a) = Len(b) /\ \A x \in 1..Len(a) : SortKey(a[x]) = SortKey(b[x])
+NoDup(a) == Cardinality(SeqSet(a)) = Len(a)
+LimitEx == LET sx == SortExec(w.ex) IN SortExec((IF Len(sx) > Limit THEN SubSeq(sx, 1, Limit) ELSE sx) \o w.lex)
+LimitRm == LET sx == SortExec(w.ex) disp == Displaced(sx, w.nx) IN
+           w.rm \o [x \in 1..Len(disp) |-> RmEntry(disp[x], "displaced", Len(sx), Len(w.nx))]
+WashLimitTo(ex2, rmo2) ==
   /\ w.pc = "eval" /\ w.i > Len(w.snap)
-  /\ LET sx == SortExec(w.ex)
-         keep == IF Len(sx) > Limit THEN SubSeq(sx, 1, Limit) ELSE sx
-         disp == Displaced(sx, w.nx)
-     IN w' = [w EXCEPT !.pc = "promote", !.k = 1,
-                       !.ex = SortExec(keep \o w.lex),
-                       !.rm = @ \o [x \in 1..Len(disp) |-> RmEntry(disp[x], "displaced", Len(sx), Len(w.nx))]]
+  /\ LET ex1 == LimitEx
+         rm1 == LimitRm
+         rmo1 == [x \in 1..Len(rm1) |-> rm1[x].o]
+     IN /\ \/ ex2 = ex1 /\ rmo2 = rmo1
+           \/ /\ SameKeys(ex2, ex1) /\ Len(rmo2) = Len(rmo1)
+              /\ \A x \in 1..Len(rmo1) : rmo2[x] = rmo1[x] \/ (rm1[x].why = "displaced" /\ SortKey(rmo2[x]) = SortKey(rmo1[x]))
+              /\ NoDup(ex2 \o rmo2) /\ SeqSet(ex2 \o rmo2) = SeqSet(ex1 \o rmo1)
+        /\ w' = [w EXCEPT !.pc = "promote", !.k = 1, !.ex = ex2,
+                          !.rm = [x \in 1..Len(rm1) |-> [rm1[x] EXCEPT !.o = rmo2[x]]]]
   /\ UNCHANGED <<cfg, txs, objs, byHash, byID, quota, cost, pub, head, blocked, tick, lastDrop>>
+
+WashLimit == WashLimitTo(LimitEx, [x \in 1..Len(LimitRm) |-> LimitRm[x].o])
 
 \* promote loop, next object already executable: stays listed, no lock taken
 WashKeep ==
